@@ -130,7 +130,7 @@ def edge_wrapper(ctx, callee):
 
 def rule_orient(ctx, rep):
     r = rep.rule("R-C07-orient", "every add_edge on the declaration graph uses one orientation between the declared (containing) node and the "
-                                 "referenced node, so a cycle through mixed constructs is a cycle in the graph", floor=7, floor_what="add_edge sites")
+                                 "referenced node, so a cycle through mixed constructs is a cycle in the graph", floor=4, floor_what="add_edge sites")
     sites = []
     cf = tuple(sorted(context_fields(ctx)))
     if not cf:
@@ -467,7 +467,7 @@ def rule_edgeguard(ctx, rep, rid="R-C07-edgeguard"):
     guarded by a look-up in a collection the visitor fills on its way (a "seen" set, a de-duplication table) drops the edge for a
     later declaration that happens to repeat a name - and with it a cycle."""
     r = rep.rule(rid, "no insertion of an edge is guarded by a membership test / insert on a collection that the graph builder fills while it walks "
-                      "(edges depend on the declaration visited, not on the traversal's history)", floor=7, floor_what="add_edge sites")
+                      "(edges depend on the declaration visited, not on the traversal's history)", floor=4, floor_what="add_edge sites")
     from vlib.mir import switch_info
     n = 0
     for b in sorted(ctx.prog.bodies.values(), key=lambda x: x.id):
